@@ -80,8 +80,8 @@ pub trait World {
     fn key(&self) -> String;
     /// Property monitors violated in the current state (evaluated on the implementation).
     fn monitors(&self, woken: &BTreeSet<u32>) -> Vec<String>;
-    /// Futures that may be re-polled by `settle`: (future id, waker id to use).
-    fn pollable(&self, _f: u32) -> Option<u32> {
+    /// The op line `settle` (and the woken-biased random choice) uses to re-poll future `f`.
+    fn repoll_op(&self, _f: u32) -> Option<String> {
         None
     }
 }
@@ -114,10 +114,10 @@ impl Runner {
             let mut all_wakes = Vec::new();
             while polls < bound {
                 let Some(&f) = self.woken.iter().next() else { break };
-                match self.world.pollable(f) {
-                    Some(t) => {
+                match self.world.repoll_op(f) {
+                    Some(op) => {
                         self.woken.remove(&f);
-                        let _ = self.world.exec(&format!("poll {} {}", f, t));
+                        let _ = self.world.exec(&op);
                         polls += 1;
                         for t in take_wakes() {
                             all_wakes.push(t);
@@ -342,11 +342,13 @@ pub fn random(
                 cands.iter().filter(|c| c.split_whitespace().next() == Some(kind.as_str())).collect();
             let mut op = of_kind[rng.below(of_kind.len())].clone();
             if !r.woken.is_empty() && rng.chance(2, 5) {
-                // poll a woken future (with its last waker or the candidate's)
+                // poll a woken future: any of its poll variants (wakers, starvation test outcome)
                 let w: Vec<u32> = r.woken.iter().cloned().collect();
                 let f = w[rng.below(w.len())];
-                if let Some(t) = r.world.pollable(f) {
-                    op = format!("poll {} {}", f, t);
+                let pre = format!("poll {} ", f);
+                let polls: Vec<&String> = cands.iter().filter(|c| c.starts_with(&pre)).collect();
+                if !polls.is_empty() {
+                    op = polls[rng.below(polls.len())].clone();
                 }
             } else if rng.chance(1, 14) {
                 op = "settle 64".to_string();
